@@ -5,6 +5,7 @@ package main
 import (
 	"encoding/json"
 	"fmt"
+	"math"
 	"sort"
 
 	"github.com/Tom-Johnston/mamba/ints"
@@ -284,6 +285,38 @@ func evalRange(rc rangeCase) *Failure {
 		}
 		return mk(cl, fmt.Sprintf("got %v want %v", got, w))
 	}
+	// the result belongs to the caller: mutate it in place (as Remove would), then the same and a larger Range
+	// must still be right and the first result must be unaffected by them
+	full := got[:cap(got)]
+	for i := range full {
+		full[i] = -777
+	}
+	for _, grow := range []int{0, 3} {
+		e2 := e
+		if st > 0 {
+			e2 += grow
+		} else if st < 0 {
+			e2 -= grow
+		}
+		var again []int
+		if msg, p := try(func() { again = sortints.Range(s, e2, st) }); p {
+			return mk("unexpected-panic", msg)
+		}
+		want2 := map[int]bool{}
+		if s != e2 {
+			for x := s; (st > 0 && x < e2) || (st < 0 && x > e2); x += st {
+				want2[x] = true
+			}
+		}
+		if w2 := sortedOf(want2); !intsEq(again, w2) {
+			return mk("result-shares-storage-between-calls", fmt.Sprintf("after the caller overwrote an earlier result, Range(%d,%d,%d) = %v want %v", s, e2, st, again, w2))
+		}
+		for _, v := range full {
+			if v != -777 {
+				return mk("result-shares-storage-between-calls", "a later Range call wrote into an earlier result")
+			}
+		}
+	}
 	return nil
 }
 
@@ -482,6 +515,37 @@ func runC17(c *Ctx) {
 		}
 	})
 	c.SetCount("large_set_pool", int64(len(pool)))
+	// extreme magnitudes (differences that do not fit an int)
+	ext := []int{math.MinInt64, math.MinInt64 + 1, -(1 << 62) - 3, -1, 0, 1, 1<<62 + 6, math.MaxInt64 - 1, math.MaxInt64}
+	var extSets [][]int
+	for bits := 0; bits < 1<<uint(len(ext)); bits++ {
+		var set []int
+		for i, v := range ext {
+			if bits>>uint(i)&1 == 1 {
+				set = append(set, v)
+			}
+		}
+		extSets = append(extSets, set)
+	}
+	c.parFor(int64(len(extSets)), 4, func(lo, hi int64) {
+		for _, a := range extSets[lo:hi] {
+			for _, b := range extSets {
+				for _, fn := range []string{"Union", "Intersection", "IntersectionSize", "SetMinus", "XOR", "ContainsSorted", "UnionMethod"} {
+					sc := siCase{Fn: fn, A: a, B: b, CapA: len(b) % 3}
+					c.Check(func() *Failure { return evalSI(sc) })
+				}
+			}
+			for _, x := range ext {
+				for _, fn := range []string{"Remove", "ContainsSingle"} {
+					sc := siCase{Fn: fn, A: a, X: x}
+					c.Check(func() *Failure { return evalSI(sc) })
+				}
+				sc := siCase{Fn: "Add", A: a, Args: []int{x, 0, x}}
+				c.Check(func() *Failure { return evalSI(sc) })
+			}
+		}
+	})
+	c.SetCount("extreme_magnitude_sets", int64(len(extSets)))
 	// Range with larger spans and steps
 	for _, rc := range []rangeCase{{0, 100, 1}, {0, 100, 7}, {100, 0, -7}, {-50, 50, 13}, {50, -50, -13}, {0, 1000, 999}, {0, 1000, 1000}, {0, 1000, 1001}, {1000, 0, -1000}, {1000, 0, -1001}, {7, 8, 1}, {8, 7, -1}} {
 		rc := rc
